@@ -272,6 +272,10 @@ def h_resubmit(shapes=("chain3", "fork3"), bss=(2,), flagsets=None, incomplete=T
             ex.check(res.name not in final, "C13: two result entries for one job after resubmission", job=res.name)
             final[res.name] = res
         data = json.load(open(os.path.join(out, "results.json")))
+        raw = [r_["name"] for r_ in data["results"]]
+        ex.check(len(raw) == len(set(raw)), "C13: two result entries for one job after resubmission", results=sorted(raw))
+        rows = w.result_names(out)
+        ex.check(len(rows) == len(set(rows)), "C13: results file holds two rows for one job after resubmission", rows=sorted(rows))
         ex.check(sorted(list(final) + data["missing_jobs"]) == sorted(nm), "C13: results do not hold one entry per job again",
                  results=sorted(final), missing=data["missing_jobs"])
         for n in nm:
